@@ -112,6 +112,17 @@ PROPS = {
         "technique": "exhaustive enumeration of finite value domains on the implementation with a validity invariant on every stored cell / key / string",
         "assumptions": ["characters are inspected through `ch as u32` in an optimised build without debug assertions"],
     },
+    "C11": {
+        "bin": "px_sauce", "budget_ms": 30000, "wall_cap": {"quick": 150, "thorough": 2400},
+        "rule": "per writer that appends SAUCE (ans, asc, avt, pcb, bin, xb, tnd, adf, idf, icy): title/author/group of every length 0..=LEN, LEN+1, LEN+5 x 7 content classes (letters, trailing blank, trailing NULs, inner NUL, leading blank, "
+                "high CP437 / control glyphs, all blanks); every comment count 0..=255 (line lengths cycling 0..=64, lines carrying SAUCE00 / COMNT / EOF bytes); every comment line length 0..=64, 65, 70 x 7 classes as only / second line; "
+                "all 8 flag combinations x (no font + the 16 SAUCE font names); every width 1..=1000 the format can hold; split: engine-written and hand-made contents (empty, 1 byte, 127/128/129 bytes, endings CR LF / EOF / SAUCE00 / COMNT / EOF SAUCE, "
+                "a complete inner SAUCE record) x comment counts (all 0..=255 on the engine document; {0,1,2,3,254,255} on the others, thorough all) x 2 comment styles appended by a reference SAUCE writer; non-trivial = every loadable case",
+        "level_text": "every value of each SAUCE field dimension (lengths, counts, flags, fonts, widths) is written by the real writers and read back by the real loader; every listed content x comment count is split by the real extractor and the pictures compared",
+        "level_note": "string fields compare by what a fixed-width padded field can carry (trailing blanks / NULs are padding; a zero-terminated field ends at its first NUL); pictures compare cell by cell, the taller buffer may only have blank rows more",
+        "technique": "exhaustive enumeration of finite field domains (lengths, counts, flag sets, widths) on the implementation with a round-trip oracle and a metamorphic content-vs-content+SAUCE oracle using an independent reference SAUCE writer",
+        "assumptions": ["string contents are 7 classes per length, not all 256^LEN strings"],
+    },
     "C12": {
         "bin": "px_layers", "budget_ms": 30000, "wall_cap": {"quick": 120, "thorough": 2400},
         "rule": "every glyph 0..255 of every built-in font page 0..=42 as the middle cell of 3-cell rows with neighbours from {0, 32, 255, 219, 'A'}, 8 colour contexts (incl. bright, equal fg/bg and an extra palette colour), bold on/off, "
@@ -151,6 +162,17 @@ PROPS = {
         "technique": "bounded exhaustive exploration of operation histories against a reference model + complete small-scope round-trip enumeration",
         "assumptions": [],
     },
+    "C17": {
+        "bin": "px_fonts", "budget_ms": 30000, "wall_cap": {"quick": 150, "thorough": 2400},
+        "rule": "bitmap fonts: every height 1..=32 x (2 (thorough 8) synthetic seeds whose glyph rows take every byte value, a rotation font, constant fonts 0x00/0xFF/0x1B/0x36) + every built-in font page 0..=42 + the 16 SAUCE fonts, each through "
+                "PSF2 (incl. rewrite stability), raw data via create_8 / from_basic / from_bytes, the DCS font sequence into slots 0/1/42/255 through the ANSI parser, XBin (1 and 2 fonts, compressed and not), ADF, IDF and IcyDraw (1 and 2 fonts); "
+                "512-glyph PSF2 fonts of every height; TheDraw: every glyph size 1..=30 x 1..=12 x 3 types x 4 row styles, every number 0..=94 of defined glyphs x 3 placements x 3 types, names of 0..=12 characters, spacing 0..=40, "
+                "94 maximal glyphs (beyond the 16 bit offsets), bundles of 1..=34 mixed fonts x 3 type rotations; non-trivial = every font",
+        "level_text": "every font of the stated small scope is pushed through every real encoder / decoder pair and compared bit by bit; TheDraw fonts are compared by name, type, spacing, has_char, rendered glyphs and re-serialised bytes",
+        "level_note": "raw data that begins with a PSF magic number is ambiguous by construction and is not fed to BitFont::from_bytes; TheDraw glyph tables are private, glyph data is observed by rendering every glyph and by re-serialising",
+        "technique": "small-scope exhaustive input enumeration over font geometry and glyph-table layouts with round-trip oracles on the implementation",
+        "assumptions": ["glyph byte patterns are a few synthetic families covering every byte value per row position, not all 256^(256h) fonts"],
+    },
     "C18": {
         "bin": "px_finite", "max_shards": 4,
         "rule": "complete enumeration of 3x256 attribute bytes, all (fg,bg,blink,bold) tuples expressible in each mode, 4x256 code page codes, 4x63 typed characters; "
@@ -176,6 +198,10 @@ PROPS = {
 HOOK_COMMITS = ["81babd1"]
 
 ENGINES = [
+    {"name": "px_fonts", "path": "harness/src/bin/px_fonts.rs", "serves_properties": ["C17"],
+     "kind_free_text": "font enumerator: bitmap fonts through PSF2 / raw / DCS / XBin / ADF / IDF / IcyDraw, TheDraw fonts and bundles through TDF bytes"},
+    {"name": "px_sauce", "path": "harness/src/bin/px_sauce.rs", "serves_properties": ["C11"],
+     "kind_free_text": "SAUCE field-domain enumerator over all SAUCE-writing formats with a reference SAUCE writer for the content split"},
     {"name": "px_icy", "path": "harness/src/bin/px_icy.rs", "serves_properties": ["C07", "C10"],
      "kind_free_text": "IcyDraw document enumerator with a field-by-field round-trip oracle; hand-built IcyDraw chunk streams for the character / string validity invariant"},
     {"name": "px_text", "path": "harness/src/bin/px_text.rs", "serves_properties": ["C04", "C15"],
